@@ -153,7 +153,8 @@ class Quaternion(Object3d):
         r"""Return the axis of rotation
         :math:`\hat{\mathbf{n}} = (b, c, d)`.
         """
-        axis = Vector3d(np.stack((self.b, self.c, self.d), axis=-1))
+        # Floats, as the vectors are normalized in-place below
+        axis = Vector3d(np.stack((self.b, self.c, self.d), axis=-1).astype(np.float64))
         a_is_zero = self.a < -1e-6
         axis[a_is_zero] = -axis[a_is_zero]
         norm_is_zero = axis.norm == 0
